@@ -169,6 +169,10 @@ static inline SpecOut spec_ext(const SpecCtx& c, SpecState& st) {
     return out;
 }
 
+#ifdef SPEC_WITH_SIG
+#include "spec_sig.h"
+static SpecSigOracles* g_spec_orc; static SpecSigUse* g_spec_use;
+#endif
 // the rules for one operation.  st is updated in place; on SO_ERR / SO_EXC the state is unspecified.
 static inline SpecOut spec_step(const SpecCtx& c, SpecState& st) {
     SpecOut out; out.kind = SO_OK; out.err = 0; out.exc = 0;
@@ -328,6 +332,11 @@ static inline SpecOut spec_step(const SpecCtx& c, SpecState& st) {
         } else if (spec_is_disabled(op)) {
             SpecOut eo = spec_ext(c, st);
             if (eo.kind != SO_OK) return eo;
+#ifdef SPEC_WITH_SIG
+        } else if ((op >= SOP_CHECKSIG && op <= SOP_CHECKMULTISIGVERIFY) || op == SOP_CHECKSIGADD) {
+            SpecOut so = spec_sig_op(c, st, *g_spec_orc, *g_spec_use);
+            if (so.kind != SO_OK) return so;
+#endif
         } else {
             // OP_RESERVED, OP_VER, OP_VERIF, OP_VERNOTIF, OP_RESERVED1/2, everything above OP_CHECKSIGADD; signature opcodes are
             // specified in spec_sig.h and never reach this function
